@@ -179,11 +179,176 @@ head = out[0]
 }
 
 
-def load_section(ck, seeds):
-    """loading the same jugfile twice - in the same or in another process, by whatever path - yields the same names and identifiers"""
+FLOW = """import os
+from jug import Task, TaskGenerator, Tasklet, CompoundTaskGenerator, iteratetask
+from jug.compound import CompoundTask
+from jug.utils import timed_path, cached_glob, CustomHash, identity
+from jug.unsafe import NoHash
+from jug.io import NoLoad
+from jug.mapreduce import map as jug_map, mapreduce, currymap
+
+
+def process(x, parameter=0):
+    return x * parameter + 1
+
+
+def gather(xs):
+    return (sum(xs), len(xs))
+
+
+def complex_operation(k, spread=2):
+    inter = [Task(process, k, parameter=i) for i in range(spread + 2)]
+    return Task(gather, inter)
+
+
+@CompoundTaskGenerator
+def staged(k):
+    first = Task(process, k, parameter=%(k)d)
+    return Task(gather, [first, Task(process, first, parameter=2)])
+
+
+@TaskGenerator
+def total(xs, scale=1):
+    return scale * sum(x[0] if isinstance(x, tuple) else x for x in xs)
+
+
+@TaskGenerator
+def size_of(p):
+    return os.path.getsize(p if isinstance(p, str) else p[0])
+
+
+@TaskGenerator
+def twice(x):
+    return 2 * x
+
+
+def add(a, b):
+    return a + b
+
+
+def describe(t):
+    return type(t).__name__
+
+
+mean_value = CompoundTask(complex_operation, %(k)d, spread=%(n)d)
+second = staged(%(n)d)
+report = total([mean_value, second], scale=%(k)d)
+part = mean_value[0]
+alias = Tasklet(second, lambda v, d=%(k)d: v[0] + d)
+consumer = total([part, alias])
+watched = size_of(timed_path('data/input.txt'))
+watched_too = size_of(timed_path(os.path.join('data', 'sub', '..', 'other.txt')))
+files = cached_glob('data/*.txt')
+globbed = total([len(files)])
+plain_path = size_of('data/input.txt')
+custom = total([CustomHash(3, lambda o: b'custom-%(k)d'), NoHash(os.getpid())])
+unloaded = Task(describe, NoLoad(report))
+doubled = jug_map(twice, [1, 2, 3, 4, 5], map_step=2)
+doubled_one = doubled[1]
+doubled_some = doubled[1:4]
+summed = mapreduce(add, twice, list(range(%(n)d + 3)), map_step=2, reduce_step=2)
+pairs = currymap(add, [(1, 2), (3, 4), (5, 6)], map_step=2)
+whole = identity(list(range(%(n)d)))
+"""
+INNER = ['flow.process', 'flow.gather']
+ENVS = [
+    {},
+    {'TZ': 'Pacific/Kiritimati', 'LANG': 'C', 'LC_ALL': 'C', 'HOME': '/nonexistent', 'USER': 'someone', 'LOGNAME': 'someone', 'HOSTNAME': 'node17',
+     'JUG_WORKER': '17', 'COLUMNS': '20'},
+    {'TZ': 'UTC', 'LANG': 'en_US.UTF-8', 'HOME': '/tmp', 'USER': 'root', 'HOSTNAME': 'login.cluster', 'PYTHONUTF8': '1', 'TERM': 'dumb'},
+]
+UMASKS = [None, 0o077, 0o002]
+ARGVS = [[], ['--aggressive-unload', 'x'], ['execute', '--jugdir', 'elsewhere', '--target', 'nothing']]
+
+
+def run_plans(d, plans):
+    """plans: list of (seed, env profile index, plan dict); runs them concurrently, each in its own interpreter; returns the outputs"""
+    import json
     import os
     import subprocess
     import sys
+    procs = []
+    for n, (seed, prof, plan) in enumerate(plans):
+        env = dict(os.environ)
+        env.update(ENVS[prof % len(ENVS)])
+        env.update(PYTHONHASHSEED=str(seed), PYTHONPATH=core.VERIF + os.pathsep + core.REPO, PYTHONDONTWRITEBYTECODE='1')
+        plan = dict(plan, root=d, umask=UMASKS[prof % len(UMASKS)])
+        pf, out = os.path.join(d, 'plan%d.json' % n), os.path.join(d, 'out%d.json' % n)
+        json.dump(plan, open(pf, 'w'))
+        procs.append((out, subprocess.Popen([sys.executable, '-m', 'harness.c07load', pf, out] + ARGVS[prof % len(ARGVS)], env=env, cwd=core.VERIF,
+                                            stdout=subprocess.PIPE, stderr=subprocess.PIPE, text=True)))
+    res = []
+    for out, p in procs:
+        so, se = p.communicate(timeout=600)
+        if p.returncode != 0 or not os.path.exists(out):
+            raise RuntimeError('c07load failed: %s' % se[-500:])
+        res.append(json.load(open(out)))
+        os.unlink(out)
+    return res
+
+
+def write_project(d, name, subst):
+    import os
+    proj = os.path.join(d, name)
+    os.makedirs(os.path.join(proj, 'data', 'sub'))
+    with open(os.path.join(proj, 'flow.py'), 'w') as fh:
+        fh.write(FLOW % subst)
+    for fn, body in (('input.txt', 'x' * (10 + subst['k'])), ('other.txt', 'hello\n' * subst['n'])):
+        with open(os.path.join(proj, 'data', fn), 'w') as fh:
+            fh.write(body)
+        os.utime(os.path.join(proj, 'data', fn), (1700000000 + subst['k'], 1700000000.25 + subst['n']))
+    return proj
+
+
+def project_stages(d, seeds, subst):
+    """the life of one project directory: identifiers BEFORE anything ran, with only the tasks inside the compound tasks stored, AFTER
+    everything ran, after `cleanup`, after the directory was renamed, and in a copy under a third name (file times preserved); every
+    snapshot in fresh interpreters with their own PYTHONHASHSEED / environment / umask / argv.  Returns [(stage, seed, record), ..]"""
+    import os
+    import shutil
+    write_project(d, 'run_a', subst)
+    st = {'dir': 'run_a', 'jugfile': 'flow.py', 'jugdir': 'flow.jugdata'}
+    snaps = []
+
+    def snap(stage, where, with_loads=False):
+        plans = []
+        for n, s in enumerate(seeds[:3]):
+            steps = [dict(st, op='project', dir=where[n % len(where)], ways=['relative', 'absolute', './relative'] if n == 0 else ['relative'])]
+            if with_loads:
+                steps.insert(0, {'op': 'loads', 'dir': 'proj'})
+            plans.append((s, n, {'steps': steps}))
+        outs = run_plans(d, plans)
+        for (s, n, _), o in zip(plans, outs):
+            for step in o:
+                if step.get('error'):
+                    raise RuntimeError('c07load step failed: %s' % step['error'])
+                for rec in step['records']:
+                    snaps.append((stage if step['op'] == 'project' else 'loads', s, rec))
+
+    snap('before anything ran', ['run_a'], with_loads=True)
+    r = run_plans(d, [(seeds[0], 1, {'steps': [dict(st, op='run', only=INNER)]})])[0][0]
+    if r.get('error') or not r.get('ran'):
+        raise RuntimeError('could not run the inner tasks: %r' % (r,))
+    snap('only the tasks inside the compound tasks stored', ['run_a'])
+    r = run_plans(d, [(seeds[1], 2, {'steps': [dict(st, op='run', only=None)]})])[0][0]
+    if r.get('error'):
+        raise RuntimeError('could not run the project: %r' % (r,))
+    snap('everything ran', ['run_a'])
+    r = run_plans(d, [(seeds[2], 0, {'steps': [dict(st, op='cleanup')]})])[0][0]
+    if r.get('error') or not r.get('removed'):
+        raise RuntimeError('cleanup removed nothing: %r' % (r,))
+    snap('after cleanup', ['run_a'])
+    os.rename(os.path.join(d, 'run_a'), os.path.join(d, 'moved_to_b'))
+    shutil.copytree(os.path.join(d, 'moved_to_b'), os.path.join(d, 'deep', 'er', 'copy_c'), copy_function=shutil.copy2)
+    os.symlink(os.path.join(d, 'moved_to_b'), os.path.join(d, 'link_d'))
+    snap('directory renamed / copied / reached through a symlink', ['moved_to_b', os.path.join('deep', 'er', 'copy_c'), 'link_d'])
+    return snaps
+
+
+def load_section(ck, seeds):
+    """loading the same jugfile twice - in the same or in another process, by whatever path, whatever the results directory holds and
+    whatever the process environment is - yields the same names and identifiers"""
+    import os
     from . import jugrun
     subst = {'k': ck.rng.randint(2, 9), 'n': ck.rng.randint(3, 6)}
     with jugrun.scratch_dir('c07load') as d:
@@ -192,50 +357,80 @@ def load_section(ck, seeds):
         for nm, src in JUGFILES.items():
             with open(os.path.join(d, 'proj', nm), 'w') as fh:
                 fh.write(src % subst)
-        outs = {}
-        procs = []
-        for s in seeds:
-            env = dict(os.environ)
-            env.update(PYTHONHASHSEED=str(s), PYTHONPATH=core.VERIF + os.pathsep + core.REPO, PYTHONDONTWRITEBYTECODE='1')
-            out = os.path.join(d, 'load%d.json' % s)
-            procs.append((s, out, subprocess.Popen([sys.executable, '-m', 'harness.c07load', d, out], env=env, cwd=core.VERIF,
-                                                   stdout=subprocess.PIPE, stderr=subprocess.PIPE, text=True)))
-        for s, out, p in procs:
-            so, se = p.communicate(timeout=600)
-            if p.returncode != 0 or not os.path.exists(out):
-                ck.broken.append('c07load (PYTHONHASHSEED=%s) failed: %s' % (s, se[-400:]))
-                return
-            import json
-            outs[s] = json.load(open(out))
+        try:
+            snaps = project_stages(d, seeds, subst)
+        except RuntimeError as e:
+            ck.broken.append('C07 load section: %s' % str(e)[:400])
+            return
+    # ---- (1) plain loads: (name, identifier) lists
     ref = {}
     reported = 0
-    for s in seeds:
-        for rec in outs[s]:
-            ck.case_total += 1
-            ck.count('load:' + rec['how'])
-            ck.distinct(('load', rec['jugfile'], rec['how'], s), True)
-            if rec.get('error'):
-                ck.broken.append('jug.init failed on a generated jugfile (%s, %s): %s' % (rec['jugfile'], rec['how'], rec['error'][:200]))
+    for stage, s, rec in snaps:
+        if stage != 'loads':
+            continue
+        ck.case_total += 1
+        ck.count('load:' + rec['how'])
+        ck.distinct(('load', rec['jugfile'], rec['how'], s), True)
+        if rec.get('error'):
+            ck.broken.append('jug.init failed on a generated jugfile (%s, %s): %s' % (rec['jugfile'], rec['how'], rec['error'][:200]))
+            continue
+        key = rec['jugfile']
+        if key not in ref:
+            ref[key] = (s, rec)
+            if len(rec['tasks']) < 3 or not rec['tasklets']:
+                ck.broken.append('generated jugfile %s defines too little: %r' % (key, rec['tasks']))
+            continue
+        s0, r0 = ref[key]
+        if rec['tasks'] != r0['tasks'] or rec['tasklets'] != r0['tasklets']:
+            reported += 1
+            if reported > 3:
+                ck.count('load:differs(not reported)')
                 continue
-            key = rec['jugfile']
-            if key not in ref:
-                ref[key] = (s, rec)
-                if len(rec['tasks']) < 3 or not rec['tasklets']:
-                    ck.broken.append('generated jugfile %s defines too little: %r' % (key, rec['tasks']))
-                continue
-            s0, r0 = ref[key]
-            if rec['tasks'] != r0['tasks'] or rec['tasklets'] != r0['tasklets']:
-                reported += 1
-                if reported > 3:
-                    ck.count('load:differs(not reported)')
-                    continue
-                diff = [(x, y) for x, y in zip(r0['tasks'] + r0['tasklets'], rec['tasks'] + rec['tasklets']) if x != y][:3]
-                ck.violation({'kind': 'impl-violation', 'what': 'loading the same jugfile again (another path / working directory / process) yields other task names or identifiers',
-                              'jugfile': key, 'jugfile_source': JUGFILES[key] % subst, 'subst': subst,
-                              'first_load': {k: r0[k] for k in ('how', 'path', 'cwd', 'nth_load_in_process')}, 'first_seed': s0,
-                              'this_load': {k: rec[k] for k in ('how', 'path', 'cwd', 'nth_load_in_process')}, 'this_seed': s,
-                              'first_differences(first, this)': diff, 'seeds': seeds})
+            diff = [(x, y) for x, y in zip(r0['tasks'] + r0['tasklets'], rec['tasks'] + rec['tasklets']) if x != y][:3]
+            ck.violation({'kind': 'impl-violation', 'what': 'loading the same jugfile again (another path / working directory / process) yields other task names or identifiers',
+                          'jugfile': key, 'jugfile_source': JUGFILES[key] % subst, 'subst': subst,
+                          'first_load': {k: r0[k] for k in ('how', 'path', 'cwd', 'nth_load_in_process')}, 'first_seed': s0,
+                          'this_load': {k: rec[k] for k in ('how', 'path', 'cwd', 'nth_load_in_process')}, 'this_seed': s,
+                          'first_differences(first, this)': diff, 'seeds': seeds})
     ck.sample({'jugfile': 'pipeline.py', 'tasks': ref.get('pipeline.py', (0, {'tasks': []}))[1]['tasks'][:3]})
+    # ---- (2) the project through its life and in several environments: identifiers of the jugfile's objects
+    first = None
+    reported = 0
+    for stage, s, rec in snaps:
+        if stage == 'loads':
+            continue
+        ck.case_total += 1
+        ck.count('project:' + stage)
+        ck.distinct(('project', stage, rec['how'], rec['dir'], s), True)
+        if rec.get('error'):
+            ck.broken.append('jug.init failed on the generated project (%s, %s): %s' % (stage, rec['how'], rec['error'][:300]))
+            continue
+        objs = rec['objects']
+        if first is None:
+            first = (stage, s, rec)
+            need = ('mean_value', 'second', 'report', 'part', 'watched', 'globbed', 'custom', 'unloaded', 'doubled', 'summed', 'whole')
+            if any(k not in objs for k in need):
+                ck.broken.append('generated project defines too little: %r' % sorted(objs))
+        bad = []
+        for name in sorted(objs):
+            if len(set(objs[name][k] for k in objs[name] if k != 'hash_one()')) > 1:
+                bad.append((name, 'its own identifiers disagree', objs[name]))
+            elif name not in first[2]['objects']:
+                bad.append((name, 'absent from the first load', objs[name]))
+            elif objs[name] != first[2]['objects'][name]:
+                bad.append((name, first[2]['objects'][name], objs[name]))
+        bad += [(name, 'absent from this load', first[2]['objects'][name]) for name in first[2]['objects'] if name not in objs]
+        if bad:
+            reported += 1
+            if reported > 3:
+                ck.count('project:differs(not reported)')
+                continue
+            ck.violation({'kind': 'impl-violation',
+                          'what': 'identifiers of the same jugfile objects differ between loads (state of the results directory / environment / directory name): ' + stage,
+                          'project_source': FLOW % subst, 'subst': subst,
+                          'first_load': {'stage': first[0], 'seed': first[1], 'how': first[2]['how'], 'dir': first[2]['dir']},
+                          'this_load': {'stage': stage, 'seed': s, 'how': rec['how'], 'dir': rec['dir']},
+                          'objects(name, first, this)': bad[:6], 'seeds': seeds})
 
 
 def tree_diff(a, b):
@@ -342,11 +537,27 @@ def order_dependence(ck, specs, results, seeds):
 
 
 def replay(obj):
+    if 'project_source' in obj:
+        from . import jugrun
+        global FLOW
+        keep, FLOW = FLOW, obj['project_source'].replace('%', '%%')
+        try:
+            with jugrun.scratch_dir('c07load') as d:
+                import os
+                os.makedirs(os.path.join(d, 'proj'))
+                os.makedirs(os.path.join(d, 'elsewhere'))
+                snaps = [x for x in project_stages(d, obj.get('seeds', [1, 2, 3]), obj['subst']) if x[0] != 'loads']
+        finally:
+            FLOW = keep
+        rc = 0
+        for stage, s, rec in snaps:
+            diff = [k for k in rec.get('objects', {}) if rec['objects'][k] != snaps[0][2]['objects'].get(k) or
+                    len(set(v for kk, v in rec['objects'][k].items() if kk != 'hash_one()')) > 1]
+            print('%-58s seed %s %-12s %-18s %s' % (stage, s, rec['how'], rec['dir'], 'same' if not diff and not rec.get('error') else 'DIFFERENT: %s' % (diff or rec.get('error'))))
+            rc = rc or (1 if diff or rec.get('error') else 0)
+        return rc
     if 'jugfile_source' in obj:
-        import json
         import os
-        import subprocess
-        import sys
         from . import jugrun
         rc = 0
         ref = None
@@ -355,12 +566,10 @@ def replay(obj):
             os.makedirs(os.path.join(d, 'elsewhere'))
             with open(os.path.join(d, 'proj', obj['jugfile']), 'w') as fh:
                 fh.write(obj['jugfile_source'])
-            for s in obj.get('seeds', [1, 2]):
-                env = dict(os.environ)
-                env.update(PYTHONHASHSEED=str(s), PYTHONPATH=core.VERIF + os.pathsep + core.REPO, PYTHONDONTWRITEBYTECODE='1')
-                out = os.path.join(d, 'o%d.json' % s)
-                subprocess.run([sys.executable, '-m', 'harness.c07load', d, out], env=env, cwd=core.VERIF, capture_output=True, text=True)
-                recs = json.load(open(out))
+            seeds = obj.get('seeds', [1, 2])
+            outs = run_plans(d, [(s, n, {'steps': [{'op': 'loads', 'dir': 'proj'}]}) for n, s in enumerate(seeds)])
+            for s, o in zip(seeds, outs):
+                recs = o[0]['records']
                 ref = ref or recs[0]
                 for r in recs:
                     same = r.get('tasks') == ref.get('tasks') and r.get('tasklets') == ref.get('tasklets') and not r.get('error')
